@@ -1,6 +1,7 @@
 package c19
 
 import (
+	"encoding/json"
 	"fmt"
 	"os"
 	"strconv"
@@ -210,4 +211,38 @@ func propCrash(t *rapid.T) {
 // driven through rapid only to obtain a *rapid.T for the wallet machine; the enumeration itself is deterministic
 func TestCrash(t *testing.T) {
 	rapid.Check(t, propCrash)
+}
+
+// TestReplay re-runs one crash position (VERIF_REPLAY=<case json> with {"op":..., "k":...}).
+func TestReplay(t *testing.T) {
+	path := os.Getenv("VERIF_REPLAY")
+	if path == "" {
+		t.Skip("no VERIF_REPLAY")
+	}
+	raw, err := os.ReadFile(path)
+	if err != nil {
+		t.Fatal(err)
+	}
+	var doc struct {
+		Replay struct {
+			Op string `json:"op"`
+			K  int    `json:"k"`
+		} `json:"replay"`
+	}
+	if err := json.Unmarshal(raw, &doc); err != nil {
+		t.Fatal(err)
+	}
+	rapid.Check(t, func(rt *rapid.T) {
+		for _, op := range crashOps {
+			if op.name == doc.Replay.Op {
+				r := runCrash(rt, op, doc.Replay.K, 100)
+				if r.got != r.want {
+					sig := fmt.Sprintf("C19|crash|op=%s|before=%s|restored_differs", op.name, r.crashedAt)
+					if !rec.IsKnown(sig) {
+						rt.Fatalf("VIOLATION %s: restored %d, mint-side value %d", sig, r.got, r.want)
+					}
+				}
+			}
+		}
+	})
 }
